@@ -8,6 +8,7 @@
 package vuser
 
 import (
+	"github.com/elastic/go-libaudit/v2/vshim/sched"
 	"os/user"
 	"sync/atomic"
 )
@@ -31,6 +32,7 @@ func Lookup(name string) (*user.User, error) {
 		return user.Lookup(name)
 	}
 	atomic.AddInt64(&d.Lookups, 1)
+	sched.Yield("account-database-query") // a query takes time: under the scheduler, other threads may run meanwhile
 	for _, u := range d.Users {
 		if u.Username == name {
 			c := u
@@ -46,6 +48,7 @@ func LookupId(uid string) (*user.User, error) {
 		return user.LookupId(uid)
 	}
 	atomic.AddInt64(&d.Lookups, 1)
+	sched.Yield("account-database-query") // a query takes time: under the scheduler, other threads may run meanwhile
 	for _, u := range d.Users {
 		if u.Uid == uid {
 			c := u
@@ -61,6 +64,7 @@ func LookupGroup(name string) (*user.Group, error) {
 		return user.LookupGroup(name)
 	}
 	atomic.AddInt64(&d.Lookups, 1)
+	sched.Yield("account-database-query") // a query takes time: under the scheduler, other threads may run meanwhile
 	for _, g := range d.Groups {
 		if g.Name == name {
 			c := g
@@ -76,6 +80,7 @@ func LookupGroupId(gid string) (*user.Group, error) {
 		return user.LookupGroupId(gid)
 	}
 	atomic.AddInt64(&d.Lookups, 1)
+	sched.Yield("account-database-query") // a query takes time: under the scheduler, other threads may run meanwhile
 	for _, g := range d.Groups {
 		if g.Gid == gid {
 			c := g
